@@ -1032,6 +1032,8 @@ func main() {
 	}
 	if *out != "" {
 		writeIfChanged(filepath.Join(*out, "Catalogue.lean"), sb.String())
+		emitDelegation(*repo, *out) // delegation.go
+		emitPipe(*repo, *out)       // pipe.go
 		js, _ := json.MarshalIndent(facts, "", " ")
 		writeIfChanged(filepath.Join(*out, "catalogue.json"), string(js)+"\n")
 		if err := emitPlugins(*repo, *out); err != nil {
